@@ -235,7 +235,7 @@ func parse[D []byte | string](d D, op Payload) (Decimal, error) {
 
 func parseNumber[D []byte | string](d D, neg, sepallowed bool) (Decimal, error) {
 	var sig64 uint64
-	var nfrac int16
+	var nfrac int64
 	var trunc int8
 	caneof := false
 	cansep := false
@@ -292,8 +292,7 @@ func parseNumber[D []byte | string](d D, neg, sepallowed bool) (Decimal, error) 
 	}
 
 	sig := uint128{sig64, 0}
-	var exp int16
-	maxexp := false
+	var exp int64
 
 	for ; i < l; i++ {
 		switch c := d[i]; true {
@@ -304,12 +303,12 @@ func parseNumber[D []byte | string](d D, neg, sepallowed bool) (Decimal, error) 
 			sawdig = true
 
 			if sawexp {
-				if exp > exponentBias/10+1 {
-					maxexp = true
+				// saturate: beyond this the value is out of range whatever
+				// the number of digits written
+				if exp < 1e17 {
+					exp *= 10
+					exp += int64(c - '0')
 				}
-
-				exp *= 10
-				exp += int16(c - '0')
 			} else {
 				if sig[1] <= 0x18ff_ffff_ffff_ffff {
 					if sig[1] <= 0x027f_ffff_ffff_ffff && i < l-1 {
@@ -401,20 +400,6 @@ func parseNumber[D []byte | string](d D, neg, sepallowed bool) (Decimal, error) 
 		return zero(neg), nil
 	}
 
-	// If the exponent value is larger than the maximum supported exponent,
-	// there are two cases where the value is still valid:
-	//  - the exponent is negative, where the logical value rounds to 0
-	//  - the significand is zero, where the logical value is 0
-	//
-	// Otherwise, return a range error.
-	if maxexp {
-		if eneg {
-			return zero(neg), nil
-		}
-
-		return inf(neg), parseNumberRangeError{}
-	}
-
 	if eneg {
 		exp *= -1
 	}
@@ -429,13 +414,13 @@ func parseNumber[D []byte | string](d D, neg, sepallowed bool) (Decimal, error) 
 		return zero(neg), nil
 	}
 
-	sig, exp = DefaultRoundingMode.reduce128(neg, sig, exp+exponentBias, trunc)
+	sig, exp16 := DefaultRoundingMode.reduce128(neg, sig, int16(exp)+exponentBias, trunc)
 
-	if exp > maxBiasedExponent {
+	if exp16 > maxBiasedExponent {
 		return inf(neg), parseNumberRangeError{}
 	}
 
-	return compose(neg, sig, exp), nil
+	return compose(neg, sig, exp16), nil
 }
 
 type parseNumberRangeError struct{}
